@@ -116,6 +116,7 @@ func (c *clientConn) recv() error {
 }
 
 func (c *clientConn) putChannel(ch chan<- result, sid uint32) bool {
+	c.simLockMu(uint64(sid))
 	c.Lock()
 	defer c.Unlock()
 
@@ -132,6 +133,7 @@ func (c *clientConn) putChannel(ch chan<- result, sid uint32) bool {
 }
 
 func (c *clientConn) getChannel(sid uint32) (chan<- result, bool) {
+	c.simLockMu(uint64(sid) | 1<<32)
 	c.Lock()
 	defer c.Unlock()
 
@@ -191,6 +193,7 @@ func (c *clientConn) dispatchRequest(ch chan<- result, p idmarshaler) {
 // broadcastErr sends an error to all goroutines waiting for a response.
 func (c *clientConn) broadcastErr(err error) {
 	simYield("cc.bcast", 0)
+	c.simLockMu(1 << 33)
 	c.Lock()
 	defer c.Unlock()
 
@@ -204,6 +207,7 @@ func (c *clientConn) broadcastErr(err error) {
 		c.inflight[sid] = make(chan<- result, 1)
 	}
 
+	simYield("cc.bcast.end", 0)
 	c.err = err
 	close(c.closed)
 }
